@@ -148,6 +148,20 @@ def gen_project(rng, nbase=None, heavy_noise=False, nodes=None):
         files[rng.choice([first, last])].append(render_fn(tuple(sk2), seed))
         files[last].append(render_fn(sk, seed))
         where.setdefault(b, []).append((last, len(files[last]) - 1))
+    if rng.random() < 0.4:
+        # PADDED copies: a function and copies of it with 2..9 cheap statements (calls, annotated assignments) added at the top of the body, i.e. pairs
+        # whose tree sizes differ by 20..45 % while the weighted edit distance stays small — the region where a size-based shortcut and the real
+        # distance disagree (every comparison path must agree on these pairs)
+        b = rng.randrange(len(bases))
+        sk, seed = bases[b]
+        base_lines = render_fn(sk, seed)
+        target = rng.choice(sorted(files))
+        for extra in rng.sample(range(2, 10), rng.choice([2, 3, 4])):
+            pad = []
+            for i in range(extra):
+                pad.append("    " + rng.choice(["log_%d.info(\"step %d\", tag_%d)" % (i, i, i), "metrics_%d.incr(\"k%d\")" % (i, i), "note_%d: int = %d" % (i, i),
+                                              "trace(%d)" % i]))
+            files[rng.choice([target, rng.choice(sorted(files))])].append([base_lines[0]] + pad + base_lines[1:])
     pr.files = [(p, fns) for p, fns in files.items() if fns]
     for b, locs in where.items():
         for x in range(len(locs)):
